@@ -520,7 +520,7 @@ func TestVerifC13(t *testing.T) {
 	// (b) seeded random pods
 	nrand := 2500
 	if vu.Thorough() {
-		nrand = 80000
+		nrand = 50000
 	}
 	for i := 0; i < nrand; i++ {
 		x.run(c13RandMutCase(rng))
